@@ -36,9 +36,9 @@ func (cx *c20Ctx) resultEP(fi *FuncInfo, tab *c20Table) {
 		nSucc++
 		ev := reqs[0]
 		pos = ev.call.Pos()
-		doc := c20Target(ev, 2)
+		doc := c20Target(ev, cx.get.item)
 		if doc.k != c20kObj || doc.tag != "doc" {
-			r.Unknown(c, ev.call.Pos(), "decode target `%s` is not (the address of a local holding) a document allocated in the call: %s", src(r.P.Fset, ev.call.Args[2]), doc.String())
+			r.Unknown(c, ev.call.Pos(), "decode target `%s` is not (the address of a local holding) a document allocated in the call: %s", src(r.P.Fset, ev.call), doc.String())
 			return
 		}
 		if nt, ok := doc.typ.(*types.Named); !ok || nt.Obj().Pkg() == nil || nt.Obj().Pkg().Path() != core.ModulePath || doc.name != ep.Document {
